@@ -343,6 +343,9 @@ def _unfold(ctx, seg):
     if k == "ent":
         from spec import schema_spec
         return schema_spec.unfold_entity(ctx, d[1], args[0])
+    if k == "tagged":
+        from spec import schema_spec
+        return schema_spec.unfold_tagged(ctx, d[1], args[0])
     raise Undecided(f"no unfolding for {d}")
 
 
